@@ -122,8 +122,14 @@ def run_matrix(case, res):
     # non-uniform stripes
     caps = {1: [4, 5, 7, 9, 12, 17, 33], 2: [4, 5, 6, 7, 9, 12], 3: [4, 5, 6]}[d]
     xs2, levs = [], []
+    deep = rng.random() < (0.15 if d == 1 else 0.05)
     for k in range(d):
-        P, L = trees.gen_tree(rng, 0.0, 1.0, n_points=rng.choice(caps))
+        if deep and k == 0:
+            # a deeply graded tree: neighbouring points down to 2^-22 apart (coordinates that differ by less than any absolute tolerance)
+            P, L = trees.gen_tree(rng, 0.0, 1.0, n_points=rng.choice([24, 28, 33]) if d == 1 else max(caps), style="graded", max_depth=26)
+            res.count("deeply_graded_tree")
+        else:
+            P, L = trees.gen_tree(rng, 0.0, 1.0, n_points=rng.choice(caps))
         xs2.append([float(x) for x in P])
         levs.append(L)
     N2 = int(np.prod([len(x) - 2 for x in xs2]))
